@@ -18,6 +18,12 @@ mod shrink;
 mod sim;
 mod simrt;
 
+/// The library's thread-based communicator (cfg(windows) in the source), extracted by build.rs.
+#[allow(dead_code, unused, clippy::all)]
+pub mod commt {
+    include!(concat!(env!("OUT_DIR"), "/commt.rs"));
+}
+
 #[global_allocator]
 static GLOBAL: alloc::CountingAlloc = alloc::CountingAlloc;
 
